@@ -130,6 +130,11 @@ class ProgramRunner(object):
             if obj is None:
                 return 'skip'
             k = self.key_of(obj)
+            # like a careful application: take the object out of its parents' collections first, otherwise the
+            # save-update cascade of a parent still holding it re-attaches the "deleted" object during the flush
+            for (rname, direction, loc, ex) in self.info.rels.get(type(obj).__name__, []):
+                if direction == 'MANYTOONE' and getattr(obj, rname, None) is not None:
+                    setattr(obj, rname, None)
             if sa.inspect(obj).pending:
                 s.expunge(obj)
             else:
